@@ -562,7 +562,7 @@ func c05(w *core.World, r *core.Report) {
 				}
 			}
 		}
-		for i, ret := range core.EffectiveReturns(aic) {
+		for i, ret := range core.Returns(aic) {
 			ev := errorOperand(ret)
 			if ev == nil || !core.IsNilConst(ev) {
 				continue
